@@ -57,7 +57,12 @@ func (p *bufPipe) Read(b []byte) (int, error) {
 	for {
 		p.mu.Lock()
 		if p.rerr != nil {
+			err := p.rerr
 			p.mu.Unlock()
+			// a read aborted because the request's context ended reports that context's error, as net/http does
+			if errors.Is(err, context.Canceled) || errors.Is(err, context.DeadlineExceeded) {
+				return 0, err
+			}
 			return 0, io.ErrClosedPipe
 		}
 		if p.buf.Len() > 0 {
